@@ -258,7 +258,7 @@ def normalize_url(
 
     # Ensuring scheme so parsing works correctly
     if not has_protocol:
-        url = "http://" + url
+        url = "https://" + url
 
     # Platform-specific magic
     if platform_aware:
